@@ -515,6 +515,9 @@ func (vc *VC) store(st *State, addr *SV, val *SV) {
 	for i, s := range l {
 		h := s.heap()
 		st.H[h] = vc.def(heapSort(s), sto2(st.H[h], addr.C[0], cellIdx(addr.C[1], i), val.C[i]), h)
+		if h == "H8" {
+			vc.bufSyncOut(st, addr.C[0])
+		}
 	}
 	// shadow: remember the dynamic-type metadata of interface values stored in
 	// local objects at constant offsets (used only to pick dispatch candidates)
